@@ -2,6 +2,11 @@
 
 package operator
 
-import "reduction.dev/reduction/proto/workerpb"
+import (
+	"reduction.dev/reduction/dkv/storage"
+	"reduction.dev/reduction/proto/workerpb"
+)
 
 func (o *Operator) verifRetune(*workerpb.DeployOperatorRequest) {}
+
+func (o *Operator) verifFileSystem(fs storage.FileSystem) storage.FileSystem { return fs }
